@@ -27,8 +27,8 @@ ASSUMPTIONS = [
     "wrapper rules: the first command of a non-empty prefix enters configuration mode; 'commit*' only with do_commit; save/write/copy only with do_finalize",
     "R7 (vf/ref/deploy.py) for rule chains; sibling deploy rules have disjoint languages; no %ifcontext in generated rulebooks",
 ]
-FLOORS = {"quick": {"streams_compared": 3000, "commands_compared": 20000, "exits_seen": 3000, "rule_params_checked": 5000, "nondefault_params": 500, "production_jobs": 200, "cases_with_two_apply_logics": 100},
-          "thorough": {"streams_compared": 90000, "commands_compared": 600000, "exits_seen": 90000, "rule_params_checked": 150000, "nondefault_params": 15000, "production_jobs": 6000}}
+FLOORS = {"quick": {"streams_compared": 3000, "commands_compared": 20000, "exits_seen": 3000, "rule_params_checked": 5000, "nondefault_params": 500, "production_jobs": 200, "cases_with_two_apply_logics": 100, "xpl_patches": 500, "xpl_endif_lines_shown": 500},
+          "thorough": {"streams_compared": 90000, "commands_compared": 600000, "exits_seen": 90000, "rule_params_checked": 150000, "nondefault_params": 15000, "production_jobs": 6000, "xpl_patches": 12000, "xpl_endif_lines_shown": 12000}}
 MODELS = {
     "huawei": ["Huawei", "Huawei CE6870", "Huawei NE40E-X8", "Huawei Quidway S5300"],
     "h3c": ["H3C S6800"], "optixtrans": ["Huawei OptiXtrans DC908"],
@@ -285,6 +285,81 @@ def check_case(seed, acc):
     return w
 
 
+KNOWN_ENDIF = "C09/huawei-xpl/second-endif-of-a-route-filter-shown-but-not-sent"
+WHAT_ENDIF = ("cmd_paths is a mapping keyed by command path: a Huawei XPL route-filter whose `else` block is followed by a last if/elseif chain is "
+              "displayed with two `endif` lines, but both have the path (xpl route-filter X, endif) and only the first is sent")
+
+
+def gen_route_filter(rng, name):
+    """rows of one `xpl route-filter`: 1-3 if-chains; at most one `else` per filter (sibling rows are distinct)"""
+    rows = []
+    conds = rng.sample(["community matches-any C%d" % i for i in range(1, 9)], 6)
+    else_used = False
+    for c in range(rng.randint(1, 3)):
+        rows.append(["if %s then" % conds.pop(), [["apply local-preference %d" % rng.randint(1, 400), []]]])
+        for _ in range(rng.randint(0, 1)):
+            rows.append(["elseif %s then" % conds.pop(), [[rng.choice(["approve", "refuse", "apply med 5"]), []]]])
+        if not else_used and rng.random() < 0.4:
+            rows.append(["else", [[rng.choice(["approve", "refuse"]), []]]])
+            else_used = True
+    return ["xpl route-filter %s" % name, rows]
+
+
+def check_xpl(seed, acc):
+    """Huawei XPL route-filters (end-filter / endif are produced by the formatter's block exits, several of them under one parent)"""
+    from annet.api import _diff_and_patch
+    from vf.util import unplain
+    rng = random.Random(seed)
+    vname = rng.choice(["huawei", "huawei", "h3c"])
+    model = rng.choice(MODELS[vname])
+    v, prefix, exitw, hw, fmt = c01.vendor_env(vname)
+    filters = [gen_route_filter(rng, "RF%d" % i) for i in range(rng.randint(1, 3))]
+    new = filters + [["xpl community-list CL1", [["100:1", []]]]] * (rng.random() < 0.4)
+    old = [] if rng.random() < 0.6 else [gen_route_filter(rng, "RF0")] + filters[:1]
+    w = {"seed": seed, "xpl": True, "vendor": vname, "model": model, "old": old, "new": new}
+    try:
+        _, pt = _diff_and_patch(c01.Dev(hw_of(model)), unplain(old), unplain(new), None, None, False)
+        text = fmt.patch(pt)
+        paths = list(fmt.cmd_paths(pt))
+    except Exception as e:
+        acc.violation("C09/exception/%s" % type(e).__name__, "patch computation raised", dict(w, error=repr(e)[:300]))
+        return None
+    acc.count("xpl_patches")
+    shown, stack = [], []
+    for ln in text.split("\n") if text else []:
+        d = (len(ln) - len(ln.lstrip(" "))) // len(fmt._indent)
+        stack[d:] = [ln.strip()]
+        shown.append(tuple(stack))
+    acc.count("xpl_endif_lines_shown", sum(1 for p in shown if p[-1] == "endif"))
+    acc.case(["xpl", model, text], nontrivial=len(shown) >= 4)
+    w["shown"] = [list(p) for p in shown][:80]
+    if shown == [tuple(p) for p in paths]:
+        for flags in [(True, True), (False, False)]:
+            if not check_stream(pt, model, vname, flags, acc, dict(w, xpl_checked=True)):
+                break
+        return w
+    # which filters lose a line?
+    dedup = []
+    for p in shown:
+        if p not in dedup:
+            dedup.append(p)
+    lost = [p for i, p in enumerate(shown) if p in shown[:i]]
+    known = dedup == [tuple(p) for p in paths] and all(p[-1] == "endif" for p in lost)
+    if known:
+        for p in lost:
+            rows = next((ch for r, ch in new if r == p[0]), None)
+            n_shown = sum(1 for q in shown if q == p)
+            in_class = (rows is not None and any(r == "else" for r, _ in rows) and rows[-1][0] != "else" and rows[-1][0].endswith("then") and n_shown == 2)
+            if not in_class:
+                known = False
+    if known:
+        acc.violation(KNOWN_ENDIF, WHAT_ENDIF, dict(w, cmd_paths=[list(p) for p in paths][:80]))
+    else:
+        acc.violation("C09/cmd_paths-differ-from-shown-patch", "the flattened command paths are not the lines of the displayed patch (order, depth or block exits)",
+                      dict(w, cmd_paths=[list(p) for p in paths][:80]))
+    return w
+
+
 class _Driver:
     def apply_deploy_rulebook(self, hw, cmd_paths, do_finalize=True, do_commit=True):
         import annet.deploy as AD
@@ -364,6 +439,8 @@ def run_shard(spec, acc):
         w = spec["witness"]
         if w.get("corpus"):
             run_corpus(spec, acc)
+        elif w.get("xpl"):
+            check_xpl(w["seed"], acc)
         else:
             check_case(w["seed"], acc)
         return
@@ -376,3 +453,5 @@ def run_shard(spec, acc):
         w = check_case(rng.randrange(1 << 48), acc)
         if j < 2 and w:
             acc.sample({k2: w.get(k2) for k2 in ("vendor", "patch", "deploy_rulebook")})
+        if j % 4 == 3:
+            check_xpl(rng.randrange(1 << 48), acc)
